@@ -3022,7 +3022,11 @@ typename SPxSimplifier<R>::Result SPxMainSM<R>::simplifyRows(SPxLPBase<R>& lp, b
       // 6. row singleton
       if(row.size() == 1)
       {
-         removeRowSingleton(lp, row, i);
+         typename SPxSimplifier<R>::Result res = removeRowSingleton(lp, row, i);
+
+         if(res != this->OKAY)
+            return res;
+
          continue;
       }
 
@@ -3033,7 +3037,11 @@ typename SPxSimplifier<R>::Result SPxMainSM<R>::simplifyRows(SPxLPBase<R>& lp, b
       // 7. row doubleton, aka. simple aggregation of two variables in an equation
       if(row.size() == 2 && EQrel(lp.lhs(i), lp.rhs(i), feastol()))
       {
-         aggregateVars(lp, row, i);
+         typename SPxSimplifier<R>::Result res = aggregateVars(lp, row, i);
+
+         if(res != this->OKAY)
+            return res;
+
          continue;
       }
 
@@ -4198,7 +4206,11 @@ typename SPxSimplifier<R>::Result SPxMainSM<R>::duplicateRows(SPxLPBase<R>& lp, 
 
       if(row.size() == 1)
       {
-         removeRowSingleton(lp, row, i);
+         typename SPxSimplifier<R>::Result res = removeRowSingleton(lp, row, i);
+
+         if(res != this->OKAY)
+            return res;
+
          rs_remRows++;
       }
    }
